@@ -47,9 +47,13 @@ class FunctionResult:
 def symbolic_params(ctx, con, fi):
     """fresh symbolic arguments according to the contract's shapes"""
     bound = {}
+    from . import engine as _eng
+
+    _stable = _eng.stable_param_names()
     for name, ty in con.params.items():
         if callable(ty) and not isinstance(ty, T):
-            bound[name.lstrip("*")] = ty(ctx)
+            with _stable:
+                bound[name.lstrip("*")] = ty(ctx)
             continue
         ty = ctx.resolve_ty(ty)
         t = z3.Const("p_%s" % name, Z.Val)
